@@ -5,12 +5,12 @@ import statistics
 
 import numpy as np
 
-from vf import gen
+from vf import gen, probes
 
 PID = "C02"
 ANCHORS = ["pyoma2.functions.gen:merge_mode_shapes", "pyoma2.functions.gen:MSF", "pyoma2.functions.gen:flatten_sns_names",
            "pyoma2.setup.multi:MultiSetup_PoSER.merge_results", "pyoma2.setup.multi:MultiSetup_PoSER._init_setups"]
-REQUIRED_MONITORS = ["merge@function", "merge@PoSER.synthetic", "merge@PoSER.ssi", "stats@PoSER", "roworder@flatten"]
+REQUIRED_MONITORS = ["merge-is-repeatable", "merge@function", "merge@PoSER.synthetic", "merge@PoSER.ssi", "stats@PoSER", "roworder@flatten"]
 ALL_STATES = ["factors:generic", "factors:+-1 only", "entries:real", "entries:complex", "rov:some setup has none",
               "refs:permuted differently per setup", "nref=1", "nref>1"]
 REQUIRED_STATES = ["factors:generic", "entries:complex", "refs:permuted differently per setup"]
@@ -172,8 +172,17 @@ def run_synth(ctx, rng):
         setups.append(ss)
     names = [f"group{a}" for a in range(nalg)]
     ms = MultiSetup_PoSER(ref_ind=[list(r) for r in reflist], single_setups=setups, names=names)
+    before = [[probes.digest(a.result) for a in ss.algorithms.values()] for ss in setups]
     res = ms.merge_results()
     ctx.check(sorted(res.keys()) == sorted(names), "poser:result_keys", lambda: f"merge_results keys {list(res)} expected {names}")
+    # history: merging must not touch the setups' own results, and merging again (same object, or a new one sharing the setups) gives the same
+    ctx.ev("merge-is-repeatable")
+    after = [[probes.digest(a.result) for a in ss.algorithms.values()] for ss in setups]
+    ctx.check(before == after, "poser:merge_modified_setup_results", "merge_results changed the results stored in the single setups")
+    first = {k: probes.digest(v) for k, v in res.items()}
+    again = {k: probes.digest(v) for k, v in ms.merge_results().items()}
+    other = {k: probes.digest(v) for k, v in MultiSetup_PoSER(ref_ind=[list(r) for r in reflist], single_setups=setups, names=names).merge_results().items()}
+    ctx.check(first == again == other, "poser:second_merge_differs", "merging the same setups a second time gives a different result")
     for a, nm in enumerate(names):
         if nm not in res:
             continue
